@@ -1015,6 +1015,9 @@ impl TensorChain {
             return Err(e);
         }
 
+        #[cfg(feature = "neumann_verif")]
+        tensor_store::verif_hooks::yield_point("chain.commit.after_conflict_check");
+
         let delta = workspace.to_delta_vector();
         let (merged_ops, merged_delta, merged_ws) = if self.config.auto_merge.enabled {
             self.find_and_merge_orthogonal(workspace, delta)
@@ -1031,17 +1034,26 @@ impl TensorChain {
             )));
         }
 
+        #[cfg(feature = "neumann_verif")]
+        tensor_store::verif_hooks::yield_point("chain.commit.before_snapshot");
+
         let snapshot = self
             .graph
             .store()
             .snapshot_bytes()
             .map_err(|e| ChainError::StorageError(e.to_string()))?;
 
+        #[cfg(feature = "neumann_verif")]
+        tensor_store::verif_hooks::yield_point("chain.commit.after_snapshot");
+
         if let Err(e) = self.apply_operations_to_store(&merged_ops) {
             let _ = self.graph.store().restore_from_bytes(&snapshot);
             self.fail_workspace(workspace, &merged_ws);
             return Err(e);
         }
+
+        #[cfg(feature = "neumann_verif")]
+        tensor_store::verif_hooks::yield_point("chain.commit.after_apply");
 
         let state_root = match state_root::compute_state_root(self.graph.store()) {
             Ok(root) => root,
@@ -1051,6 +1063,9 @@ impl TensorChain {
                 return Err(e);
             },
         };
+
+        #[cfg(feature = "neumann_verif")]
+        tensor_store::verif_hooks::yield_point("chain.commit.after_state_root");
 
         #[allow(clippy::cast_possible_truncation)]
         let quantized_codes = if merged_delta.is_empty() {
@@ -1071,8 +1086,13 @@ impl TensorChain {
             .with_state_root(state_root)
             .sign_and_build(&self.identity);
 
+        #[cfg(feature = "neumann_verif")]
+        tensor_store::verif_hooks::yield_point("chain.commit.before_append");
+
         match self.chain.append(block) {
             Ok(hash) => {
+                #[cfg(feature = "neumann_verif")]
+                tensor_store::verif_hooks::yield_point("chain.commit.after_append");
                 workspace.mark_committed();
                 self.tx_manager.remove(workspace.id());
                 for ws in merged_ws {
@@ -1082,6 +1102,8 @@ impl TensorChain {
                 Ok(hash)
             },
             Err(e) => {
+                #[cfg(feature = "neumann_verif")]
+                tensor_store::verif_hooks::yield_point("chain.commit.before_restore");
                 let _ = self.graph.store().restore_from_bytes(&snapshot);
                 self.fail_workspace(workspace, &merged_ws);
                 Err(e)
